@@ -53,9 +53,13 @@ def clauses(lst, props=()):
 
 
 class Outcome:
-    def __init__(self, label, kind, post, exc=None, site=None, when=None, res="none", mods="all", user=False):
+    def __init__(self, label, kind, post, exc=None, site=None, when=None, res="none", mods="all", user=False,
+                 value=None):
         self.label, self.kind, self.post, self.exc, self.site = label, kind, post, exc, site
         self.when, self.res, self.mods, self.user = when, res, mods, user
+        # value(ctx): the result as a closed term over the entry view/ghost state (functional contracts; lets a call
+        # be used inside any()/all()/max() generator expressions)
+        self.value = value
 
     def matches(self, ex):
         if ex.kind != self.kind:
@@ -491,11 +495,13 @@ class HeapExec(Exec):
                     raise Unsupported("tuple(%r)" % v)
             return
         if name == "list":
+            # list(<sequence>) used as a temporary (reversed / tuple / len / iteration): a value, not a heap object;
+            # any mutation of it (append, store into an attribute) is outside the subset and rejected as such
             for q, vs in self.evs(args, p):
                 v = vs[0]
                 if v.k in ("aseq", "listref", "iterseq"):
                     s = self.seq_of(v, q)
-                    yield q, self.alloc_list(q, s.n, s.a)
+                    yield q, V("aseq", ASeq(s.n, s.a))
                 else:
                     raise Unsupported("list(%r)" % v)
             return
@@ -527,6 +533,32 @@ class HeapExec(Exec):
                 rng = And(0 <= j, j < seq.n)
                 yield q, vbool(Exists([j], And(rng, body)) if name == "any" else ForAll([j], Implies(rng, body)))
             return
+        if name == "max":
+            g = args[0] if len(args) == 1 else None
+            if not isinstance(g, ast.GeneratorExp):
+                raise Unsupported("max of a non-generator")
+            var, it, ifs, elt = self.comp_parts(g)
+            if ifs:
+                raise Unsupported("filtered max")
+            for q, itv in self.ev(it, p):
+                seq = self.as_iterseq(itv, q)
+                j = Int(fresh("j"))
+                sub = q.fork(And(0 <= j, j < seq.n))
+                sub.env[var] = seq.at(j)
+                body, effect = self.functional_term(elt, sub)
+                if body.k != "int":
+                    raise Unsupported("max over %r" % body)
+                self.oblig(q, "SAFE", "max-of-nonempty", seq.n > 0, note="max() of an empty sequence raises ValueError")
+                m = Int(fresh("max"))
+                jj = Int("jj")
+                from z3 import substitute
+                bj = substitute(body.t, (j, jj))
+                q.assume(seq.n > 0, ForAll([jj], Implies(And(0 <= jj, jj < seq.n), m >= bj)),
+                         Exists([jj], And(0 <= jj, jj < seq.n, m == bj)))
+                if effect:
+                    self.viewpure_havoc(q)
+                yield q, vint(m)
+            return
         if name == "id":
             for q, vs in self.evs(args, p):
                 if vs[0].k != "ref":
@@ -546,6 +578,31 @@ class HeapExec(Exec):
                                                desc="enumerate"))
             return
         raise Unsupported("builtin %s" % name)
+
+    def functional_term(self, e, sub):
+        """value of a call-free expression or of a property access with a functional contract, as a closed term;
+        PRE obligations are emitted on the sub-path.  Returns (V, has_view_pure_effect)."""
+        if isinstance(e, ast.Attribute) and isinstance(e.value, ast.Name) and e.value.id in sub.env:
+            obj = sub.env[e.value.id]
+            spec = self.fam.specs.get((self.mangle(e.attr), "getter"))
+            if spec is not None and obj.k == "ref" and len(spec.outcomes) == 1 and spec.outcomes[0].value is not None:
+                self.need_node(obj, sub, e.attr)
+                ctx = Ctx(spec, sub.S, {"self": obj})
+                for c in clauses(spec.requires(ctx)):
+                    self.oblig(sub, "PRE", "get:%s/%s" % (e.attr, c.name), c.f)
+                o = spec.outcomes[0]
+                kind = "int" if o.res == "int" else o.res
+                return V(kind, o.value(ctx)), bool(o.mods)
+        raise Unsupported("generator body %s (needs a functional contract)" % ast.unparse(e))
+
+    def viewpure_havoc(self, p):
+        """effect of any number of view-pure calls (lazy creation of empty child lists): raw list fields change, the
+        view, the ghost state and well-formedness do not (each step preserves them; they are transitive)"""
+        from .heap import view_equal, alloc_mono, wf
+        S0 = p.S
+        S1 = S0.havoc(("hasC", "C", "Llen", "alloc"), "vp")
+        p.set_state(S1)
+        p.assume(view_equal(S1, S0), alloc_mono(S1, S0), *wf(S1))
 
     def reverse(self, s, p):
         arr = Array(fresh("rev"), I, R)
@@ -593,7 +650,10 @@ class HeapExec(Exec):
                 S1 = q.S.havoc(o.mods, "post")
             else:
                 S1 = q.S
-            res = fresh_value("int" if (o.res.startswith("wit") or o.res == "payload") else o.res, "res")
+            if o.value is not None:
+                res = V(o.res, o.value(ctx))
+            else:
+                res = fresh_value("int" if (o.res.startswith("wit") or o.res == "payload") else o.res, "res")
             q.set_state(S1)
             q.assume(*[c.assumable() for c in clauses(o.post(ctx, S1, res))])
             if o.kind == "return":
@@ -683,7 +743,16 @@ def verify_spec(spec):
                 ex.oblig(p, "KIND", "%s/result-kind" % o.label, BoolVal(False),
                          note="result %r is not of the contract's kind %s" % (value, o.res))
                 continue
-        for c in clauses(o.post(ctx, p.S, value), props=spec.props):
+        extra = []
+        if o.value is not None and x.kind == "return":
+            fv = o.value(ctx)
+            if o.res == "aseq":
+                jq = Int("jq")
+                extra = [Clause("functional-result/len", value.t.n == fv.n, spec.props),
+                         Clause("functional-result/elements", ForAll([jq], Implies(And(0 <= jq, jq < fv.n), value.t.a[jq] == fv.a[jq])), spec.props)]
+            else:
+                extra = [Clause("functional-result", value.t == fv, spec.props)]
+        for c in extra + clauses(o.post(ctx, p.S, value), props=spec.props):
             goal, sfx = c.provable()
             ex.oblig(p, "POST" if x.kind == "return" else "EXC", "%s/%s%s" % (o.label, c.name, sfx), goal,
                      props=c.props or spec.props)
